@@ -1089,6 +1089,26 @@ fn builtin_sort(args: Vec<Rc<Object>>) -> Result<Rc<Object>, String> {
     let obj = args[0].as_ref();
     match obj {
         Object::Arr(arr) => {
+            // Only values of one ordered kind can be sorted: a comparison that is
+            // not a total order (mixed kinds, NaN) makes the standard sort panic
+            let comparable = {
+                let elements = arr.elements.borrow();
+                elements.iter().all(|e| match (e.as_ref(), elements[0].as_ref()) {
+                    (Object::Float(f), _) if f.is_nan() => false,
+                    (
+                        Object::Integer(_) | Object::Float(_),
+                        Object::Integer(_) | Object::Float(_),
+                    )
+                    | (Object::Str(_), Object::Str(_))
+                    | (Object::Char(_), Object::Char(_))
+                    | (Object::Byte(_), Object::Byte(_))
+                    | (Object::Bool(_), Object::Bool(_)) => true,
+                    _ => false,
+                })
+            };
+            if !comparable {
+                return Err(String::from("array elements are not mutually comparable"));
+            }
             arr.elements.borrow_mut().sort();
             Ok(Rc::clone(&args[0]))
         }
